@@ -94,6 +94,10 @@ class TLCResult:
         self.property_violated = re.findall(
             r"Error: (?:Action|Temporal) property (\S+)", out
         ) + (["temporal"] if "Temporal properties were violated" in out else [])
+        # action / temporal properties count like invariants for every caller that asks "did the model hold?"
+        if self.property_violated:
+            self.invariant_violated = True
+            self.violated = self.violated + [p for p in self.property_violated if p not in self.violated]
         self.deadlock = "Deadlock reached" in out
         self.finished = "Model checking completed" in out or "Finished in" in out
         self.tuples = [t for t in (_parse_tla_value(x) for x in _printed_tuples(out)) if t]
